@@ -246,3 +246,6 @@ META = dict(
     assumptions=["pairs have distinct top-level names and neither takes the other as input"],
     explanation="B's readings and helper entries are term-compared with B alone after every step, for all candle values",
 )
+
+# families added after the seeding rounds (kept next to the original bound so that MANIFEST / evidence stay current)
+META["bounds"] = dict(META["bounds"], quick=META["bounds"]["quick"] + "; added after the seeding rounds: " + 'period-only variants of 14 helper-owning classes; A carrying fill / HA settings over a gapped stream; maintenance aimed at B after A; shared args dict; Hexital-level T2 pairs compared right after add_indicator; members named like a candle field')
